@@ -5,7 +5,25 @@
    - [old_format_nil]        : the empty script formats to "";
    - [old_handle_yields]     : a handler that returns yields at least one tuple;
    - [old_loop_length]       : a successful run collects at least one tuple per action;
-   - [render_entries_ok]     : tuples made of strs only always render. *)
+   - [render_entries_ok]     : tuples made of strs only always render, to the lines
+                               "[" ++ ", ".join(tuple) ++ "]" joined by "\n";
+   - [oh_*]                  : what each handler computes on an action of the shape
+                               Differ yields (equations, by computation);
+   - [old_handle_spec]       : in the state an identity-level action was rendered in,
+                               and if the documented semantics accepts the action, the
+                               handler returns tuples of strs: getpath strings resolve
+                               to their nodes (PathProofs), position-1 is a valid child
+                               index for InsertNode, the adjusted sibling index of
+                               MoveNode is valid, RenameAttrib's old attribute is present;
+   - [old_handle_ext]        : the handlers only look at the forest pointwise;
+   - [old_loop_total], [old_format_total], [old_format_total_count] : C18;
+   - boolean versions of the side conditions and a concrete instance [ex18_*];
+   - [ex18_default_namespace], [ex18_comment_none] : the two printing premises
+     cannot be dropped.
+
+   Colleague lemmas used (all proved, no hypotheses left): getpath_unique,
+   path_roundtrip (PathProofs); patcher_refines_spec_ext, spec_apply_wf,
+   script_ok/script_okb_sound, parentof_ext, eval_all_ext, ext_refl (PatcherProofs). *)
 From Coq Require Import List NArith ZArith Arith Bool Lia.
 Import ListNotations.
 Require Import XV.Str XV.Json XV.TextFormat XV.Forest XV.Matcher XV.Differ XV.Spec XV.WF
